@@ -38,6 +38,9 @@ def single_exit(stmts, res):
             val = st.value if st.value is not None else ast.Constant(None)
             out.append(ast.copy_location(ast.Assign([ast.Name(res, ast.Store())], val), st))
             return out, True
+        if isinstance(st, ast.Raise):
+            out.append(st)          # the path ends here: nothing falls through to a later `res = None`
+            return out, True
         if isinstance(st, (ast.FunctionDef, ast.ClassDef, ast.AsyncFunctionDef)):
             raise NotInlinable('nested definition')
         if contains_return(st) and isinstance(st, (ast.For, ast.While)) and not st.orelse:
